@@ -353,10 +353,17 @@ class StoreSim:
                 self.probes['new_species_refused'] += 1
                 self._after_reject(sess, 'new_species', op)
                 return f'refused:{type(e).__name__}'
+            if sess.sid in self.pending_reject:
+                # C10: after a rejected addition the next valid one gets the next index
+                self.fail('reject.state_changed', f'valid addition after a rejected one refused: '
+                          f'{type(e).__name__}: {e}', sess, what='next_add', **self.pending_reject[sess.sid])
             self.fail('add.valid_refused', f'{type(e).__name__}: {e}', sess,
                       had_prototype_in_cache=had_proto, first=first,
                       extra_fieldsets=bool(spec.get('fs')), exc=type(e).__name__)
         if idx != len(rows):
+            if sess.sid in self.pending_reject:
+                self.fail('reject.state_changed', f'addition after a rejected one returned {idx}, model {len(rows)}',
+                          sess, what='next_index', **self.pending_reject[sess.sid])
             self.fail('add.wrong_index', f'add returned {idx}, model {len(rows)}', sess, first=first)
         rows.append(snap)
         self._specs(sess).append(dict(spec))
